@@ -149,5 +149,51 @@ CLAIMS = {
   'technique': 'Coq proof (invariant "good" preserved by the orchestrator loop, inductive reachability over crash/resume histories, reflection of the boolean oracle) + differential correspondence of step_next and '
                'of killed-and-resumed real canvas invocations + extracted oracle on observed resume points and executed steps',
  },
+
+ 'C04': {
+  'text': 'PARTIAL. Coq theorems (closed under the global context) about a transition system of the robsd() loop and the jobs it forks, for EVERY configuration (synchronous/parallel steps, '
+          'exit codes, skip marks, ncpu) and EVERY schedule of main-loop and job moves: an invariant (remembered jobs <= ncpu, everything running is a remembered job or the foreground step, '
+          'terminal states are quiet) from which: never more than ncpu parallel steps at once; a step starts only at the loop head in configuration order and never when skipped; a synchronous '
+          'step only when nothing runs (barrier); a parallel step only when no synchronous step runs; after a failing synchronous step nothing starts and the status is non-zero; a failing '
+          'parallel step leaves the loop\'s course unchanged; end only if every started synchronous step succeeded. Tied to the code by end-to-end canvas runs with gated probe steps: after every '
+          'completion the model (eager schedule) predicts exactly which steps start next; the extracted trace oracle judges the observed starts/ends, exit status and end record.',
+  'note': 'ASSUMED: the contract of robsd-wait (stand-in outside OpenBSD), bash for ksh (&, $!, set -e, pipelines), probe commands; only the bookkeeping is proved. The correspondence uses one schedule family '
+          '(main loop runs as far as it can between completions) for <= 7 steps, ncpu <= 3; the theorems cover all schedules. Hook: ROBSD_VERIF_NCPU.',
+  'technique': 'Coq invariant proof over all schedules of the orchestrator transition system + end-to-end schedule-driven correspondence with the real canvas + extracted trace oracle',
+ },
+ 'C11': {
+  'text': 'PARTIAL. Coq theorems on the same transition system extended with the step-file writes of step_exec_job and the hook calls, for every configuration and schedule: every started step '
+          'that finished has exactly one record with its real exit status, finished exactly once; when the invocation has ended nothing runs and every record is a completion record, an initial '
+          '(skip) record or the end record - none in flight; hook calls are exactly the finished steps with their names and exit statuses, and at the end every started step has finished; the '
+          'report/mail/end-hook decision of trap_exit as a function of the outcome; a second invocation while the lock is held by another build directory is refused and changes nothing. '
+          'Tied to the code by the same end-to-end canvas runs as C04 (foreground and detached, optional second invocation): records, per-record log files holding the step output, hook log, lock '
+          'sampled during and after, report presence and mail count are judged by the extracted accounting oracle.',
+  'note': 'ASSUMED/observed only: log file contents, lock file handling and mail transport are shell + userland behaviour seen through stand-ins (sendmail, logname, chflags); robsd-wait contract; bash for ksh. '
+          'The lock/second-invocation theorem is about a small separate model of lock_acquire/trap_exit. Resumed invocations: C03.',
+  'technique': 'Coq invariant proof (record/hook accounting over all schedules) + end-to-end correspondence with the real canvas + extracted accounting oracle',
+ },
+ 'C20': {
+  'text': 'Coq theorems (all closed under the global context). (a) Each of the 15 KS_*_overflow0 fallbacks, regenerated on every run '
+          'from libks/arithmetic.c by a clang-AST translator into Gallina with explicit C integer semantics, for ALL operands of its type '
+          'never traps, returns 1 exactly when the mathematical result is unrepresentable and stores the exact result otherwise (lia/nia, '
+          'no enumeration). (b) The models of vector.c and buffer.c with their real representation (capacity, doubling loop, overflow guards, '
+          'two-pass printf reservation, str/release, getline iterator) refine the list / byte-string programs for every operation sequence, '
+          'any element size, any allocator granting < 2^50 bytes, any qsort returning a sorted permutation; getline returns exactly the lines. '
+          '(c) The model of map.c with its real structure (insertion-order list, bucket chains, expansion with rehash, table freed with the last '
+          'element, (el,nx) iterator) refines an insertion-ordered dictionary for ANY hash function on every disciplined sequence; iteration '
+          'returns each live entry once in insertion order, also when the entry just returned is removed; elements are never altered or copied.',
+  'note': 'proved about models; tied to the code on every run by: translator validation of the 15 fallbacks against three compiled builds '
+          '(cc -O0, cc -O2, clang trapping UBSan) on the full boundary grid + aimed operands; in-process differential runs of vector.c, buffer.c, '
+          'map.c (results, capacities, table shape, final bucket structure incl. HASH_JEN placement) on seeded sequences crossing several '
+          'reallocations / expansions; the extracted specification oracles applied to what the implementation returned. Only observed: the '
+          'builtin path (__builtin_*_overflow contract assumed), pointer stability (handles translated from addresses), behaviour under real '
+          'allocators. Assumed: LP64, little-endian, CInt.v reading of C11, realloc/calloc/qsort/vsnprintf/memcmp contracts, no allocation failure '
+          'below 2^50 bytes; allocation-failure paths of map.c not modelled; map call-site discipline (insert only absent keys, never remove the '
+          'element the iterator points to) is a hypothesis, call sites listed by the harness. Correspondence bounded by generated sequences '
+          '(<= ~3000 keys, <= 700 ops) - the theorems have no bound. The unsigned-multiply defect (D12) was repaired (fix: 7208c0f).',
+  'technique': 'Coq: translator-regenerated leaf functions + symbolic execution/nia; refinement by induction over operation lists with structural '
+               'invariants (rehash lemma for bucket expansion); extracted-model differential correspondence and extracted spec oracles against '
+               'the rebuilt libks sources',
+ },
 }
 NOT_APPLICABLE = {p: PENDING for p in ['C%02d' % i for i in range(1, 21)] if p not in CLAIMS}
